@@ -39,6 +39,9 @@ func exec(kind string, in []string) []string {
 	if kind == "sched" {
 		return sd.ExecSched(in)
 	}
+	if kind == "xbroker" {
+		return sd.ExecXBroker(in) // manual replay of the cross-broker schedule, never generated
+	}
 	return sd.Exec(kind, in)
 }
 
